@@ -1,14 +1,14 @@
 CHECK = dict(
     level="fault_enumeration",
     level_text="Fault-sequence enumeration and generated-history search against the real billstat.RuntimeRecorder with a scripted uploader: every success/failure pattern of up to six consecutive upload attempts is enumerated with a fixed set of record placements (before the upload and re-entrantly while it is in flight); rapid draws longer patterns, more devices, random and near-miss metadata (one field changed, unknown location, device IDs differing in case only), Record and Refresh calls with cancelled / expired / cancelled-in-flight contexts, and rare overlapping refreshes. After every real call the per-device equation delivered + pending (+ in flight) = recorded and the last-writer metadata of every pending/uploaded record are compared with an explicit model. A -race variant samples real goroutine schedules and checks the same at quiescence. A second unit drives the real backendpb.BillStat uploader over a scripted gRPC client stream (open/send/close faults incl. Send reporting io.EOF with the status deferred to CloseAndRecv, done and cancelled-mid-stream contexts). A further part runs the same recorder and uploader with the real grpc-go client against an in-process gRPC server on loopback whose treatment of each upload is drawn (ack with Empty, OK without a response message, status error before/in the middle of/after reading, partial read then OK, silence until the client deadline, commit then answer too late, caller cancels mid-stream, connection dropped before/mid/after commit); there the server's own commit record (RPC finished with OK from the server's side) is the oracle's 'delivered'. Held on N histories is evidence, not proof; exhaustive only for the stated placement sets.",
-    level_note="The in-flight race is modelled by records made from inside Uploader.Upload (deterministic) and sampled with real goroutines; 'delivered' means the uploader returned nil (a failed stream is assumed to be discarded by the backend as a whole). Timestamps are strictly increasing in call order so 'most recent query' is unambiguous.",
+    level_note="The in-flight race is modelled by records made from inside Uploader.Upload (deterministic) and sampled with real goroutines; 'delivered' means the uploader returned nil (a failed stream is assumed to be discarded by the backend as a whole). Start times are not monotone in recording order; 'most recent query' is read as the most recently recorded one.",
     technique="property-based testing (rapid): bounded-exhaustive S/F fault patterns + stateful histories with a re-entrant scripted uploader vs a counting/last-writer model; concurrent variant under -race",
     assumptions=[
         "an upload counts as delivered exactly when Uploader.Upload returns nil; partial delivery by a stream that later fails is the backend's to discard",
         "Refresh calls do not overlap for the metadata clause (one refresh worker); overlapping refreshes are exercised for conservation and for untorn metadata only",
-        "timestamps passed to Record are strictly increasing per device in call order (call order and time order agree)",
+        "'most recent query' is the most recently RECORDED query (Record is called at the end of processing with the query's start time): start times are drawn independently of the recording order (earlier, equal, later) and the reference follows recording order, as the unchanged Record and remergeRecords do",
         "counts stay far below the int32 range of Record.Queries",
-        "grpc part: an upload is delivered iff the server finished the RPC with OK from its side; when the server commits but the client cannot learn it (deadline passed, connection dropped, partial read answered OK and the client noticed) only 'nothing lost' is judged for that batch, a repeated delivery of exactly that batch is not judged; records are made between refreshes only",
+        "grpc part: an upload is delivered iff the server finished the RPC with OK from its side; when the server commits but the client cannot learn it (deadline passed, connection dropped, partial read answered OK and the client noticed) only 'nothing lost' is judged for that batch, a repeated delivery of exactly that batch is not judged",
         "cmd unit: as the C14 cmd unit; a refresh 'as the worker runs it' is rec.Refresh with a context from the registered worker's own constructor; the worker's period is read out of the runtime timer behind its time.Ticker at an offset validated on tickers of known periods (inconclusive if that fails)",
     ],
     units=[
